@@ -24,6 +24,8 @@ type votedCase struct {
 	Marks   []int  `json:"marks"`
 	Signers []int  `json:"signers"`
 	Mut     string `json:"mut"`
+	Size    int    `json:"size"`  // payload-binding cases (F3): number of items in the message
+	Field   string `json:"field"` // ... and the field changed after the quorum signed ("none": unchanged)
 	Acc     bool   `json:"acc"`
 	variant int
 }
@@ -231,7 +233,7 @@ func (s *Session) VotedTx(vc *voteCtx, kind string, vs VoteSpec, seqOffset int) 
 	if err != nil {
 		return nil, err
 	}
-	return &RelTx{Bytes: bz, Ev: "vote", F: f, Sig: sig, Vid: s.NewVid(), Votes: v}, nil
+	return &RelTx{Bytes: bz, Ev: "vote", F: f, Sig: sig, Vid: s.NewVid(), Votes: v, Msg: vm.Msg}, nil
 }
 
 func fillVoteDefaults(f Ev) {
@@ -309,8 +311,12 @@ func votedRun(w *tracew.Writer, cases []votedCase, n int, seed int64, inst, run 
 	}
 	// rejects first, then one expected accept, per block; a case that marks positions beyond the voter list is replayed once
 	// per mapping of those model positions to real bit positions (exactly n and n+1, word boundaries, far away)
-	var rej, acc []votedCase
+	var rej, acc, bind []votedCase
 	for _, cs := range cases {
+		if cs.Size > 0 {
+			bind = append(bind, cs)
+			continue
+		}
 		beyondMarks := false
 		for _, mk := range cs.Marks {
 			beyondMarks = beyondMarks || mk >= n
@@ -387,5 +393,138 @@ func votedRun(w *tracew.Writer, cases []votedCase, n int, seed int64, inst, run 
 			return err
 		}
 	}
+	for _, cs := range bind {
+		if err := s.bindCase(cs); err != nil {
+			return err
+		}
+	}
 	return nil
+}
+
+// bindCase (family F3): an honest quorum signs a real message of the given type and size (what they sign is the message's
+// own VoteSigDoc, computed by the real code); then one field is changed and the real keeper verifies the proposal.
+func (s *Session) bindCase(cs votedCase) error {
+	vc, err := s.voteCtx()
+	if err != nil {
+		return err
+	}
+	r := s.R
+	bech := s.member(vc.Proposer).Bech
+	rb := func(n int) []byte { b := make([]byte, n); r.Read(b); return b }
+	var msg relayertypes.IVoteMsg
+	var setVote func(*relayertypes.Votes)
+	var mutate func() bool // applies the change; false if the field does not exist for this message
+	switch cs.Kind {
+	case "NewBlockHashes":
+		m := &bitcointypes.MsgNewBlockHashes{Proposer: bech, StartBlockNumber: vc.Tip + 1}
+		for i := 0; i < cs.Size; i++ {
+			m.BlockHash = append(m.BlockHash, rb(32))
+		}
+		msg, setVote = m, func(v *relayertypes.Votes) { m.Vote = v }
+		mutate = func() bool {
+			switch cs.Field {
+			case "start":
+				m.StartBlockNumber++
+			case "hashFirst":
+				m.BlockHash[0] = flipLastBit(m.BlockHash[0])
+			case "hashLast":
+				m.BlockHash[len(m.BlockHash)-1] = flipLastBit(m.BlockHash[len(m.BlockHash)-1])
+			case "dropLast":
+				m.BlockHash = m.BlockHash[:len(m.BlockHash)-1]
+			case "append":
+				m.BlockHash = append(m.BlockHash, rb(32))
+			default:
+				return false
+			}
+			return true
+		}
+	case "NewPubkey":
+		k := sim.NewBtcKey(r.Int63(), 1, r.Intn(2) == 0)
+		m := &bitcointypes.MsgNewPubkey{Proposer: bech, Pubkey: k.Pub}
+		msg, setVote = m, func(v *relayertypes.Votes) { m.Vote = v }
+		mutate = func() bool {
+			if cs.Field != "key" {
+				return false
+			}
+			m.Pubkey = sim.NewBtcKey(r.Int63(), 2, keyType(k) == "schnorr").Pub
+			return true
+		}
+	case "NewConsolidation":
+		raw, _ := btc.Tx(r, []btc.Out{{Value: 50_000, Script: btc.SystemScript(vc.CurKey)}}, 0)
+		m := &bitcointypes.MsgNewConsolidation{Proposer: bech, NoWitnessTx: raw}
+		msg, setVote = m, func(v *relayertypes.Votes) { m.Vote = v }
+		mutate = func() bool {
+			if cs.Field != "tx" {
+				return false
+			}
+			m.NoWitnessTx = flipLastBit(m.NoWitnessTx)
+			return true
+		}
+	case "ProcessWithdrawal":
+		raw, _ := btc.Tx(r, []btc.Out{{Value: 50_000, Script: btc.SystemScript(vc.CurKey)}}, 0)
+		m := &bitcointypes.MsgProcessWithdrawal{Proposer: bech, NoWitnessTx: raw, TxFee: uint64(1000 + r.Intn(100000))}
+		for i := 0; i < cs.Size; i++ {
+			m.Id = append(m.Id, uint64(1+i)+uint64(r.Intn(3))<<uint(8*r.Intn(8)))
+		}
+		msg, setVote = m, func(v *relayertypes.Votes) { m.Vote = v }
+		mutate = func() bool {
+			switch cs.Field {
+			case "idFirst":
+				m.Id[0] ^= 1 << uint(r.Intn(64))
+			case "idLast":
+				m.Id[len(m.Id)-1] ^= 1 << uint(r.Intn(64))
+			case "dropId":
+				m.Id = m.Id[:len(m.Id)-1]
+			case "appendId":
+				m.Id = append(m.Id, r.Uint64())
+			case "tx":
+				m.NoWitnessTx = flipLastBit(m.NoWitnessTx)
+			case "fee":
+				m.TxFee += []uint64{1, 1 << 8, 1 << 32, 1 << 56, 4999000}[r.Intn(5)]
+			default:
+				return false
+			}
+			return true
+		}
+	case "ReplaceWithdrawal":
+		raw, _ := btc.Tx(r, []btc.Out{{Value: 50_000, Script: btc.SystemScript(vc.CurKey)}}, 0)
+		m := &bitcointypes.MsgReplaceWithdrawal{Proposer: bech, Pid: uint64(r.Intn(1000)), NewNoWitnessTx: raw, NewTxFee: uint64(1000 + r.Intn(100000))}
+		msg, setVote = m, func(v *relayertypes.Votes) { m.Vote = v }
+		mutate = func() bool {
+			switch cs.Field {
+			case "pid":
+				m.Pid ^= 1 << uint(r.Intn(64))
+			case "tx":
+				m.NewNoWitnessTx = flipLastBit(m.NewNoWitnessTx)
+			case "fee":
+				m.NewTxFee += []uint64{1, 1 << 8, 1 << 32, 1 << 56}[r.Intn(4)]
+			default:
+				return false
+			}
+			return true
+		}
+	default:
+		return fmt.Errorf("bind case: unknown kind %s", cs.Kind)
+	}
+	payload := fmt.Sprintf("b%d", s.NewVid())
+	signed := msg.VoteSigDoc() // what the quorum signs: the real code's bytes for the ORIGINAL content
+	v, f, _ := s.BuildVote(vc, cs.Kind, payload, signed, VoteSpec{Marks: cs.Marks, Signers: cs.Signers})
+	setVote(v)
+	if cs.Field != "none" {
+		if !mutate() {
+			return fmt.Errorf("bind case: %s has no field %s", cs.Kind, cs.Field)
+		}
+		f["payload"] = payload + "~" + cs.Field // a different content is a different payload
+	}
+	ctx, _ := s.C.ReadCtx().CacheContext()
+	_, verr := s.C.App.RelayerKeeper.VerifyProposal(ctx, msg)
+	f["pf"], f["ok"], f["size"], f["field"], f["log"] = vc.Proposer, verr == nil, cs.Size, cs.Field, short(errStr(verr))
+	s.emit(s.RelW, "verify", f)
+	return nil
+}
+
+func flipLastBit(b []byte) []byte {
+	out := append([]byte{}, b...)
+	out[len(out)-1] ^= 1
+	return out
 }
